@@ -21,7 +21,9 @@ CHILD = 5001        # a live child
 CHILD2 = 5002       # a second child (a zombie child, as reaped children usually are for a moment)
 OTHER = 77          # unrelated process
 NAME = b"proc-0123456789"          # 15 bytes: Process.name() consults cmdline()
-CMDLINE = b"/nonexistent/proc-0123456789abc\x00-x\x00"
+DEL_FD = "3"                       # live kind: this descriptor's target, exe and cwd end in " (deleted)"
+MAPS_DEL = ("lib.so (deleted)",)   # live kind: mapped file of smaps whose path ends in " (deleted)"
+DEVS = ("pts0", "tty1")            # tty nodes get_terminal_map() finds (under <files>/dev)
 START = 5000
 BOOT = 1500000000.0
 
@@ -68,7 +70,7 @@ UNIX = (b"Num       RefCount Protocol Flags    Type St Inode Path\n"
         b"0000000000000000: 00000002 00000000 00010000 0001 01 9002 /run/x.sock\n")
 
 # fd table of the live process, in the order the listing is presented: (name, link target class)
-FDS = (("0", "other"), ("3", "reg"), ("4", "sock"), ("5", "reg"), ("6", "pipe"))
+FDS = (("0", "absother"), ("3", "reg"), ("4", "sock"), ("5", "reg"), ("6", "pipe"))
 TASKS = ("4242", "4243")
 
 
@@ -118,29 +120,46 @@ def build_tree(root, files_dir, kind):
         with open(p, "wb") as f:
             f.write(data)
 
-    w("cmdline", CMDLINE if kind == "live" else b"")
+    exe = os.path.join(files_dir, "exe-target")
+    with open(exe, "wb") as f:
+        f.write(b"#!/bin/sh\n")
+    os.chmod(exe, 0o755)
+    os.makedirs(os.path.join(files_dir, "dev"), exist_ok=True)
+    for n in DEVS:
+        with open(os.path.join(files_dir, "dev", n), "wb") as f:
+            f.write(b"")
+    os.makedirs(os.path.join(files_dir, "cwd-dir"), exist_ok=True)
+    deleted = base_kind == "live"        # the plain-link variants are exercised by the racy / kthread kinds
+    suffix = " (deleted)" if deleted else ""
+    w("cmdline", (os.fsencode(exe) + b"\x00-x\x00") if kind == "live" else b"")
     w("environ", b"A=1\x00B=two\x00" if kind == "live" else b"")
     w("statm", b"100 50 10 5 0 20 0\n" if kind == "live" else b"0 0 0 0 0 0 0\n")
     w("io", b"rchar: 1\nwchar: 2\nsyscr: 3\nsyscw: 4\nread_bytes: 5\nwrite_bytes: 6\ncancelled_write_bytes: 0\n")
-    w("smaps", SMAPS if kind == "live" else b"")
+    smaps = SMAPS
+    if deleted:
+        for m in MAPS_DEL:
+            smaps += (b"7f000000-7f001000 r--p 00000000 08:02 99 %s\nSize: 4 kB\nRss: 4 kB\nPss: 4 kB\n"
+                      % os.fsencode(os.path.join(files_dir, m)))
+    w("smaps", smaps if kind == "live" else b"")
     w("smaps_rollup", ROLLUP if kind == "live" else b"")
     os.makedirs(os.path.join(d, "fd"))
     os.makedirs(os.path.join(d, "fdinfo"))
     for t in tasks_of(base_kind):
         w("task/%s/stat" % t, _stat(int(t), NAME, state[:1], PPID, START))
     if kind == "live":
-        exe = os.path.join(files_dir, "exe-target")
-        with open(exe, "wb") as f:
-            f.write(b"#!/bin/sh\n")
-        os.chmod(exe, 0o755)
-        os.symlink(exe, os.path.join(d, "exe"))
+        os.symlink(exe + suffix, os.path.join(d, "exe"))
     if kind != "zombie":
-        os.symlink(files_dir, os.path.join(d, "cwd"))
+        os.symlink(os.path.join(files_dir, "cwd-dir") + suffix, os.path.join(d, "cwd"))
     for name, cls in fds_of(base_kind):
         if cls == "reg":
-            t = os.path.join(files_dir, "file%s" % name)
+            t = os.path.join(files_dir, "t%s" % name)
             with open(t, "wb") as f:
                 f.write(b"x")
+            if deleted and name == DEL_FD:
+                t += " (deleted)"
+        elif cls == "absother":
+            t = os.path.join(files_dir, "t%s" % name)
+            os.makedirs(t, exist_ok=True)
         elif cls == "sock":
             t = "socket:[9001]"
         elif cls == "pipe":
@@ -215,28 +234,35 @@ def _oserr(e, path):
 class World(Shim):
     """Shim + fault model.  fault = {"vanish": k|None, "deny": {k: errno}}"""
 
-    def __init__(self, root, kind):
+    def __init__(self, root, kind, files=None):
         Shim.__init__(self, {})
         self.root = root
+        self.files = files or (os.path.dirname(root) + "/files")
         self.kind = kind
         self.pdir = os.path.join(root, str(PID))
         self.vanish = None
         self.deny = {}
         self.gone = False
         self.busy = False
-        self.watch = lambda p: (not self.busy) and (p == root or p.startswith(root + "/"))
+        self.watch = lambda p: (not self.busy) and (p == root or p.startswith(root + "/")
+                                                    or p == self.files or p.startswith(self.files + "/"))
         self.fault = self._fault
         self._sys = {}
 
     def rel(self, p):
+        if p == self.files or p.startswith(self.files + "/"):
+            return "^" + p[len(self.files) + 1:]          # an ordinary file outside procfs
         return p[len(self.root) + 1:] if p != self.root else ""
 
     def is_self(self, p):
         return p == self.pdir or p.startswith(self.pdir + "/")
 
     def is_proc(self, p):
-        r = self.rel(p).split("/")[0]
-        return r.isdigit()
+        """can this access be refused: every path except the global procfs files and the /dev scan"""
+        r = self.rel(p)
+        if r.startswith("^"):
+            return r != "^dev"
+        return r.split("/")[0].isdigit()
 
     def remove_now(self):
         if not self.gone:
@@ -284,6 +310,27 @@ class World(Shim):
                 r = sorted(r, key=lambda n: (0, int(n)) if os.fsdecode(n).isdigit() else (1, 0, n))
             return r
         os.listdir = listdir2
+        inner_access = os.access
+
+        def access2(path, *a, **kw):            # os.access answers False when refused, it does not raise
+            try:
+                return inner_access(path, *a, **kw)
+            except OSError:
+                return False
+        os.access = access2
+        # get_terminal_map() scans /dev with glob: present the fake tty nodes (one listing access, never faulted)
+        import glob as _glob
+        self._glob = _glob.glob
+
+        def glob2(pat, *a, **kw):
+            if pat == "/dev/tty*":
+                devdir = os.path.join(me.files, "dev")
+                me._hit("listdir", devdir)
+                return [os.path.join(devdir, n) for n in DEVS]
+            if pat == "/dev/pts/*":
+                return []
+            return me._glob(pat, *a, **kw)
+        _glob.glob = glob2
         import resource
         from psutil import _pslinux
         cp, ce = _pslinux.cext_posix, _pslinux.cext
@@ -300,6 +347,10 @@ class World(Shim):
             setattr(mod, n, mk(n))
 
     def uninstall(self):
+        import glob as _glob
+        if getattr(self, "_glob", None):
+            _glob.glob = self._glob
+            self._glob = None
         for n, (mod, fn) in self._sys.items():
             setattr(mod, n, fn)
         self._sys = {}
@@ -422,6 +473,7 @@ def reset_psutil(psutil, root):
     psutil._TOTAL_PHYMEM = 8 << 30
     psutil._pmap.clear()
     psutil._pids_reused.clear()
+    psutil._psposix.get_terminal_map.cache_clear()
 
 
 def run_case(work, kind, mname, vanish=None, deny=None, sticky=False):
@@ -432,7 +484,7 @@ def run_case(work, kind, mname, vanish=None, deny=None, sticky=False):
     files = os.path.join(work, "files")
     build_tree(root, files, kind)
     reset_psutil(psutil, root)
-    w = World(root, kind)
+    w = World(root, kind, files)
     w.install()
     try:
         w.fault = None
